@@ -686,3 +686,23 @@ Fixpoint gslb_walk (l : list (str * Z)) (w : Z) (cur : str) : str :=
 Definition gslb_pick (st : list (str * Z) * Z * bool * Z) (h : Z) : str :=
   let '(s, total, single, av) := st in
   if single then fst (nth (Z.to_nat av) s ([], 0)) else gslb_walk s (h mod total) [].
+
+(* ------------------------------------------------------------------ bal_slb: backends of a sub-cluster, sticky choice *)
+Record bk := { b_name : str; b_addr : str; b_port : Z; b_weight : Z }.
+Definition addr_info (b : bk) : str := b_addr b ++ 58 :: dec_of_Z (b_port b).     (* fmt.Sprintf("%s:%d") *)
+(* BalanceRR.Init / Update leave the list unsorted; stickyBalance sorts it by AddrInfo before use
+   (ensureSortedUnlocked), keeps the backends with weight > 0 (weights are stored x100), and walks value = hash mod total *)
+Definition bk_sorted (bks : list bk) : list bk := map snd (sort_by_name (map (fun b => (addr_info b, b)) bks)).
+Fixpoint bk_walk (l : list bk) (v : Z) : option bk :=
+  match l with
+  | [] => None
+  | b :: r => if v - b_weight b * 100 <? 0 then Some b else bk_walk r (v - b_weight b * 100)
+  end.
+Definition sticky_pick (bks : list bk) (h : Z) : option bk :=
+  let cands := filter (fun b => 0 <? b_weight b) (bk_sorted bks) in
+  match cands with
+  | [] => None
+  | _ => bk_walk cands (h mod fold_right (fun b a => b_weight b * 100 + a) 0 cands)
+  end.
+(* the backend inventory of a sub-cluster after Init or Update, as (AddrInfo, weight x 100) in AddrInfo order *)
+Definition bk_inventory (bks : list bk) : list (str * Z) := map (fun b => (addr_info b, b_weight b * 100)) (bk_sorted bks).
